@@ -115,7 +115,7 @@ def trace_record(run, text, optargs, cfgrec, cfgt, keeppen=0, name=""):
                 "hasfile": 1 if rec["file"] else 0})
     f = rec["file"] or {"summary": [], "det_groups": []}
     rec["file"] = {"summary": f["summary"], "det_groups": f["det_groups"]}
-    rec.pop("others", None)
+    rec["_others"] = rec.pop("others", None)      # kept for the harness, removed before the record goes to TLC
     return rec
 
 
@@ -161,7 +161,7 @@ def validate(ctx, recs, metas, invariants, label="run records"):
         return {}
     wd = tlc.workdir("runs")
     tf = os.path.join(wd, "runs.json")
-    json.dump([r for r, _ in good], open(tf, "w"))
+    json.dump([{k: v for k, v in r.items() if not k.startswith("_")} for r, _ in good], open(tf, "w"))
     res, viol = tlc.trace_check("Trace_Run", invariants, tf, timeout=3000)
     ctx.add_tlc(res, "trace validation of %s (%d runs)" % (label, len(good)))
     ctx.traces += len(good)
